@@ -167,7 +167,7 @@ def run(ctx):
 
     # ---------------- row sums of the measured rows (the hypothesis of dc_unity_iff_rows)
     cfgs = list(S.QUICK_CORE) + S.pick_rational(rng, 2 if quick else 150, exclude=S.QUICK_CORE)
-    rows = S.pool_map(S.job_rows, [(c, 700 if quick else 2000) for c in cfgs])
+    rows = S.pool_map(S.job_rows, [(c, 700 if quick else 2000, 3e6 if quick else 8e6) for c in cfgs])
     n_rows = 0
     for r in rows:
         if "error" in r:
